@@ -28,6 +28,7 @@ import props as PROPS      # noqa: E402
 
 VENV_PY = os.path.join(HERE, '.venv312', 'bin', 'python')
 REPO = os.environ.get('PYVC_REPO', '/repo')
+OUT = os.environ.get('PYVC_OUTDIR', HERE)      # evidence/ and replays/ go here (seed regression runs use a scratch directory)
 
 
 def ensure_venv():
@@ -191,10 +192,10 @@ def main():
     tier = a.tier if a.tier in ('quick', 'thorough') else 'quick'
     cfg = PROPS.PROPS[pid]
     ensure_venv()
-    os.makedirs(os.path.join(HERE, 'evidence'), exist_ok=True)
-    os.makedirs(os.path.join(HERE, 'replays', pid), exist_ok=True)
-    for f in os.listdir(os.path.join(HERE, 'replays', pid)):
-        os.unlink(os.path.join(HERE, 'replays', pid, f))
+    os.makedirs(os.path.join(OUT, 'evidence'), exist_ok=True)
+    os.makedirs(os.path.join(OUT, 'replays', pid), exist_ok=True)
+    for f in os.listdir(os.path.join(OUT, 'replays', pid)):
+        os.unlink(os.path.join(OUT, 'replays', pid, f))
     global CTX
     timeout_ms = 10000 if tier == 'quick' else 30000
     ctx = Context(repo_root=REPO, timeout_ms=int(os.environ.get('PYVC_TIMEOUT_MS', timeout_ms)), seed=seed)
@@ -224,7 +225,7 @@ def main():
     # 0c. bounded stand-ins run natively on the real code (labelled bounded, never counted as proved)
     native_results = []
     for nc in cfg.get('native_checks', []):
-        outp = os.path.join(HERE, 'replays', pid, '_native_%s.json' % nc['name'])
+        outp = os.path.join(OUT, 'replays', pid, '_native_%s.json' % nc['name'])
         p = subprocess.run([VENV_PY] + nc['cmd'] + [tier, str(seed), outp], cwd=HERE, capture_output=True, text=True,
                            env=dict(os.environ, PYVC_REPO=REPO, PYTHONPATH=HERE))
         try:
@@ -347,11 +348,11 @@ def main():
                 if o.get('scenario'):
                     rp['scenario'] = o['scenario']
                     rp['kind'] = 'solver-model'
-                    json.dump(rp, open(os.path.join(HERE, rfile), 'w'), indent=1)
+                    json.dump(rp, open(os.path.join(OUT, rfile), 'w'), indent=1)
                     try:
-                        p = native(['replay', os.path.join(HERE, rfile)], timeout=300)
+                        p = native(['replay', os.path.join(OUT, rfile)], timeout=300)
                         try:
-                            rp['native'] = json.load(open(os.path.join(HERE, rfile))).get('native')
+                            rp['native'] = json.load(open(os.path.join(OUT, rfile))).get('native')
                         except Exception:
                             pass
                         if p.returncode == 1:
@@ -362,7 +363,7 @@ def main():
             # (b) directed bounded search on the same function and contract
             if not confirmed:
                 if key not in search_cache:
-                    outp = os.path.join(HERE, 'replays', pid, '_search_%s.json' % re.sub(r'\W+', '_', fn))
+                    outp = os.path.join(OUT, 'replays', pid, '_search_%s.json' % re.sub(r'\W+', '_', fn))
                     n = cfg.get('search_n', {}).get(tier, 400 if tier == 'quick' else 4000)
                     try:
                         native(['search', sc_rel, key[0], key[1], str(n), str(seed), outp], timeout=900)
@@ -379,7 +380,7 @@ def main():
                 else:
                     rp['search'] = {k: sr.get(k) for k in ('evaluations', 'valid', 'distinct', 'error')}
         rp['confirmed_on_real_code'] = confirmed
-        json.dump(rp, open(os.path.join(HERE, rfile), 'w'), indent=1, default=str)
+        json.dump(rp, open(os.path.join(OUT, rfile), 'w'), indent=1, default=str)
         if confirmed:
             violations.append((name, rfile, ''))
         elif name in led_set or not ledger:
@@ -393,7 +394,7 @@ def main():
             file, qual = fk.split(':', 1)
             if qual in sidecar_of:
                 sc_rel, key = sidecar_of[qual]
-                outp = os.path.join(HERE, 'replays', pid, '_bounded_%s.json' % re.sub(r'\W+', '_', qual))
+                outp = os.path.join(OUT, 'replays', pid, '_bounded_%s.json' % re.sub(r'\W+', '_', qual))
                 n = 2000 if tier == 'quick' else 20000
                 try:
                     native(['search', sc_rel, key[0], key[1], str(n), str(seed), outp], timeout=1800)
@@ -406,7 +407,7 @@ def main():
                     rfile = os.path.join('replays', pid, 'bounded_' + re.sub(r'\W+', '_', qual) + '.json')
                     json.dump({'property': pid, 'obligation': 'bounded stand-in of ' + fk, 'function': list(key), 'sidecar': sc_rel,
                                'scenario': sr['violations'][0]['scenario'], 'native': sr['violations'][0]['native'],
-                               'kind': 'bounded-stand-in'}, open(os.path.join(HERE, rfile), 'w'), indent=1, default=str)
+                               'kind': 'bounded-stand-in'}, open(os.path.join(OUT, rfile), 'w'), indent=1, default=str)
                     f = known_match('bounded:' + fk)
                     if f is not None:
                         known_hits.append((f, 'bounded:' + fk))
@@ -434,12 +435,12 @@ def main():
                 continue
             rfile = os.path.join('replays', pid, 'native_%s_%s.json' % (nr['name'], re.sub(r'\W+', '_', cls)[:60]))
             json.dump({'property': pid, 'obligation': oname, 'kind': 'bounded-stand-in', 'violation': v},
-                      open(os.path.join(HERE, rfile), 'w'), indent=1, default=str)
+                      open(os.path.join(OUT, rfile), 'w'), indent=1, default=str)
             violations.append((oname, rfile, ''))
     for fr in fact_results:
         if not fr['ok']:
             rfile = os.path.join('replays', pid, 'fact_' + re.sub(r'\W+', '_', fr['name']) + '.json')
-            json.dump(fr, open(os.path.join(HERE, rfile), 'w'), indent=1)
+            json.dump(fr, open(os.path.join(OUT, rfile), 'w'), indent=1)
             f = known_match('fact:' + fr['name'])
             if f is not None:
                 known_hits.append((f, 'fact:' + fr['name']))
@@ -496,7 +497,7 @@ def main():
         'assumptions': cfg.get('assumptions', []) + PROPS.COMMON_ASSUMPTIONS,
         'wall_s': round(wall, 2), 'violations': len(violations),
     }
-    json.dump(ev, open(os.path.join(HERE, 'evidence', pid + '.json'), 'w'), indent=1, default=str)
+    json.dump(ev, open(os.path.join(OUT, 'evidence', pid + '.json'), 'w'), indent=1, default=str)
     # 8. report
     print('%s: %d obligations, %d discharged, %d failed (%d known-finding, %d violations, %d undecided), %d bounded functions, %.1fs wall, %.1fs solver'
           % (pid, n_obl, n_dis, len(failed), len(known_obl), len(violations), len(undecided), len(bounded), wall, solver_time))
